@@ -448,6 +448,14 @@ func (fs *propSet) buildValue(prop *property, create bool) (Field, bool, error) 
 	if err != nil {
 		return nil, false, err
 	}
+	if !create {
+		// An exposed oneof reached through a flattened object shares that
+		// object's message, so the message being present does not mean the
+		// oneof is set.
+		if _, isOneof := prop.schema.Schema.(*j5schema.OneofField); isOneof && !j5schema.IsOneofWrapper(finalField.Message()) && !built.IsSet() {
+			return nil, false, nil
+		}
+	}
 	prop.value = built
 
 	prop.hasValue = true
